@@ -613,6 +613,21 @@ pub fn probe_set_iterators(rebuild: &dyn Fn() -> SetSut, s: &mut SetSut, univers
                 return Err("set.iter().clone() does not continue from the same position".into());
             }
         }
+        if j <= n {
+            let r = n - j;
+            for k in [0usize, 1, r.saturating_sub(1), r, r + 3] {
+                crate::mapprobes::drive_nth(s.set.iter(), n, j, k, "set.iter()", &cv, &full)?;
+                let mut t = rebuild();
+                let set = std::mem::take(&mut t.set);
+                crate::mapprobes::drive_nth(set.into_iter(), n, j, k, "set.into_iter()", &co, &full)?;
+                t.finish().map_err(|m| format!("after set.into_iter() with nth({k}): {m}"))?;
+                let mut t = rebuild();
+                crate::mapprobes::drive_nth(t.set.drain(), n, j, k, "set.drain()", &co, &full)?;
+                t.model.clear();
+                t.finish().map_err(|m| format!("after set.drain() with nth({k}): {m}"))?;
+                count += 3;
+            }
+        }
         for tail in [Tail::Next, Tail::Fold, Tail::DropNow] {
             {
                 let mut t = rebuild();
